@@ -69,9 +69,9 @@ func FromStd(m map[string]string) M {
 // infinities survive JSON.
 type F uint64
 
-func FOf(v float64) F       { return F(math.Float64bits(v)) }
-func (f F) V() float64      { return math.Float64frombits(uint64(f)) }
-func (f F) String() string  { t, _ := f.MarshalText(); return string(t) }
+func FOf(v float64) F      { return F(math.Float64bits(v)) }
+func (f F) V() float64     { return math.Float64frombits(uint64(f)) }
+func (f F) String() string { t, _ := f.MarshalText(); return string(t) }
 
 func (f F) MarshalText() ([]byte, error) {
 	v := f.V()
